@@ -1142,6 +1142,42 @@ func caseTx(o *out.Out, r *gen.Rand, c int) {
 			o.Fail(step, "chainid-not-bound", "V of chain id+1 under signer "+s.tok()+": "+ores)
 		}
 	}
+	// V aliases: the genuine (R, S) with a V outside the signer's exact set {27,28} / {35+2c,36+2c}
+	// (V + k*256, V + 2^64, tiny values) must be rejected and must never recover the signer under a
+	// second transaction hash
+	{
+		origHash := stx.Hash()
+		for _, av := range vAliases(t.v) {
+			at := t.clone()
+			at.v = av
+			atx, aerr := at.build()
+			if aerr != nil {
+				panic(aerr)
+			}
+			var derived *big.Int
+			catch(func() { derived = atx.ChainId() })
+			signers := []sgn{s, {}}
+			if derived != nil && derived.Sign() >= 0 && derived.BitLen() <= 200 {
+				signers = append(signers, sgn{chain: derived})
+			}
+			seen := map[string]bool{}
+			for _, as := range signers {
+				if seen[as.tok()] {
+					continue
+				}
+				seen[as.tok()] = true
+				step++
+				o.Count("tx.valias")
+				ares, _ := opSD(o, as, at)
+				if !legitV(as, av) && ares != "invalidsig" && ares != "chainid" {
+					o.Fail(step, "malformed-values-accepted", fmt.Sprintf("Sender under %s did not reject V=%s (genuine V=%s, genuine R,S): %s", as.tok(), av, t.v, ares))
+				}
+				if ares == "ok:"+anum(addr) && atx.Hash() != origHash {
+					o.Fail(step, "tx-malleable-v", fmt.Sprintf("same (R,S) with V=%s instead of %s recovers the same sender under %s for a second tx hash %s (original %s)", av, t.v, as.tok(), atx.Hash().Hex(), origHash.Hex()))
+				}
+			}
+		}
+	}
 	// re-target V to another signer while keeping (r, s, recid): the hash must bind the chain id
 	{
 		targets := []sgn{{}}
@@ -1174,6 +1210,130 @@ func caseTx(o *out.Out, r *gen.Rand, c int) {
 		}
 	}
 	o.Mark(fmt.Sprintf("tx|%s|n%d|p%d|g%d|to%v|a%d|d%d|%s", s.tok(), bitlen(t.nonce), t.price.BitLen(), bitlen(t.gas), t.to != nil, t.amount.BitLen(), len(t.payload), shape))
+}
+
+// V values congruent to v modulo 256 (and other out-of-range neighbours)
+func vAliases(v *big.Int) []*big.Int {
+	var l []*big.Int
+	for _, k := range []uint64{1, 2, 255, 1 << 24, 1 << 55} {
+		l = append(l, new(big.Int).Add(v, new(big.Int).Lsh(new(big.Int).SetUint64(k), 8)))
+	}
+	l = append(l, new(big.Int).Add(v, new(big.Int).Lsh(big.NewInt(1), 64)), // >= 2^64
+		new(big.Int).Add(v, new(big.Int).Lsh(big.NewInt(1), 72)))
+	if v.Cmp(big.NewInt(256)) >= 0 {
+		l = append(l, new(big.Int).Sub(v, big.NewInt(256)))
+	}
+	for _, x := range []int64{0, 1, 26, 29} {
+		l = append(l, big.NewInt(x))
+	}
+	return l
+}
+
+// the exact V values a signer may accept
+func legitV(s sgn, v *big.Int) bool {
+	if v.Cmp(big.NewInt(27)) == 0 || v.Cmp(big.NewInt(28)) == 0 {
+		return true
+	}
+	if s.chain == nil {
+		return false
+	}
+	base := new(big.Int).Add(new(big.Int).Mul(s.chain, big.NewInt(2)), big.NewInt(35))
+	d := new(big.Int).Sub(v, base)
+	return d.Sign() >= 0 && d.Cmp(big.NewInt(1)) <= 0
+}
+
+// ---------------------------------------------------------------- dual events (the other recoverPlain caller)
+
+func eventSigHash(de *types.DualEvent) []byte {
+	b, err := rlp.EncodeToBytes([]interface{}{de.BlockNumber, de.TriggeredEvent, de.PendingTxMetadata, de.KardiaSmcs})
+	if err != nil {
+		panic(err)
+	}
+	return crypto.Keccak256(b)
+}
+
+func opRP(o *out.Out, de *types.DualEvent, h []byte) string {
+	cpy := &types.DualEvent{BlockNumber: de.BlockNumber, TriggeredEvent: de.TriggeredEvent, PendingTxMetadata: de.PendingTxMetadata,
+		KardiaSmcs: de.KardiaSmcs, V: de.V, R: de.R, S: de.S}
+	var from common.Address
+	var err error
+	res := ""
+	switch {
+	case catch(func() { from, err = types.EventSender(cpy) }):
+		res = "PANIC"
+		o.Fail(step, "sender-panic", "types.EventSender panicked")
+	case err == types.ErrInvalidSig:
+		res = "invalidsig"
+	case err != nil:
+		res = "other"
+	case known[from]:
+		res = "ok:" + anum(from)
+	default:
+		res = "other"
+	}
+	o.Op(fmt.Sprintf("RP %s %s %s %s", hx(h), de.R, de.S, de.V), "rp "+res)
+	return res
+}
+
+func caseDualEvent(o *out.Out, r *gen.Rand, c int) {
+	o.Case(c, fmt.Sprintf("CASE %d dualevent", c))
+	o.Count("case.dualevent")
+	k := r.Intn(len(keys))
+	addr := addrs[k]
+	de := &types.DualEvent{BlockNumber: pickU64(r),
+		TriggeredEvent: &types.EventData{TxHash: common.BytesToHash(r.Bytes(32)), TxSource: types.BlockchainSymbol("ETH"), FromExternal: r.Bool(), Data: genPayload(r), Actions: []string{"a"}},
+		V: new(big.Int), R: new(big.Int), S: new(big.Int)}
+	var sde *types.DualEvent
+	var err error
+	if catch(func() { sde, err = types.SignEvent(de, keys[k]) }) || err != nil {
+		o.Fail(0, "signevent-error", fmt.Sprintf("types.SignEvent failed: %v", err))
+		return
+	}
+	h := eventSigHash(sde)
+	sig65 := mk65(sde.R, sde.S, byte(1-sde.V.Bit(0)))
+	if !types.VerifySignature(addr, h, sig65) {
+		o.Fail(0, "signevent-unknown-hash", "types.SignEvent did not sign Keccak(RLP[blockNumber, triggeredEvent, pendingTxMetadata, kardiaSmcs])")
+		return
+	}
+	regSig(o, sig65, addr, h)
+	regSig(o, twin(sig65), addr, h)
+	step = 1
+	if res := opRP(o, sde, h); res != "ok:"+anum(addr) {
+		o.Fail(step, "signevent-wrong-sender", "SignEvent then EventSender returned "+res)
+	}
+	genuineV := new(big.Int).Set(sde.V)
+	for _, av := range vAliases(genuineV) {
+		step++
+		o.Count("event.valias")
+		m := *sde
+		m.V = av
+		res := opRP(o, &m, h)
+		if res != "invalidsig" {
+			o.Fail(step, "malformed-values-accepted", fmt.Sprintf("EventSender did not reject V=%s (genuine V=%s, genuine R,S): %s", av, genuineV, res))
+		}
+		if res == "ok:"+anum(addr) {
+			o.Fail(step, "tx-malleable-v", fmt.Sprintf("dual event: same (R,S) with V=%s instead of %s recovers the same sender", av, genuineV))
+		}
+	}
+	{ // high-s twin
+		step++
+		m := *sde
+		m.S = new(big.Int).Sub(curveN, sde.S)
+		m.V = big.NewInt(27 + int64(sde.V.Bit(0))) // flipped parity: 27<->28
+		if res := opRP(o, &m, h); res != "invalidsig" {
+			o.Fail(step, "high-s-accepted", "dual event with the malleated high-s signature is not rejected: "+res)
+		}
+	}
+	{ // content mutation keeps the signature
+		step++
+		m := *sde
+		m.BlockNumber++
+		mh := eventSigHash(&m)
+		if res := opRP(o, &m, mh); res == "ok:"+anum(addr) {
+			o.Fail(step, "mutation-accepted", "dual event with changed block number still recovers the signer")
+		}
+	}
+	o.Mark(fmt.Sprintf("dualevent|b%d|d%d", bitlen(de.BlockNumber), len(de.TriggeredEvent.Data)))
 }
 
 // ---------------------------------------------------------------- signature shapes
@@ -1247,6 +1407,10 @@ func caseShapes(o *out.Out, r *gen.Rand, c int) {
 		}
 		if r.Chance(1, 8) {
 			tt.v = new(big.Int).SetUint64([]uint64{0, 1, 26, 29, 34, 35, 36, 255, 256, 1 << 63, 1<<64 - 1}[r.Intn(11)])
+		}
+		if r.Chance(1, 4) { // V congruent to a legitimate value modulo 256 / 2^64
+			al := vAliases(tt.v)
+			tt.v = al[r.Intn(len(al))]
 		}
 		res, _ := opSD(o, s, tt)
 		valid := rv.Sign() > 0 && sv.Sign() > 0 && rv.Cmp(curveN) < 0 && sv.Cmp(halfN) <= 0
@@ -1326,7 +1490,7 @@ func main() {
 		}
 		r := root.Fork(uint64(c))
 		step = 0
-		switch r.Pick(6, 5, 7, 1, 1) {
+		switch r.Pick(12, 10, 14, 2, 2, 1) {
 		case 0:
 			caseMsg(o, r, c, true)
 		case 1:
@@ -1337,6 +1501,8 @@ func main() {
 			caseShapes(o, r, c)
 		case 4:
 			caseProtoLevel(o, r, c)
+		case 5:
+			caseDualEvent(o, r, c)
 		}
 	}
 	o.Close()
